@@ -485,6 +485,11 @@ pub trait Scheme: 'static + Sized {
     fn vk_variants(_vk: &Vk<Self>, _seed: u64) -> Vec<(String, Vk<Self>)> {
         vec![]
     }
+    /// sum_i coeff_i * commitment_i for the schemes whose LC path is homomorphic (None otherwise)
+    #[cfg(feature = "full")]
+    fn combine_comms(_terms: &[(Self::F, &Comm<Self>)]) -> Option<Comm<Self>> {
+        None
+    }
     /// C10: the scheme's published verification relation, evaluated by the harness's own code with
     /// the same challenge derivation (None = no reference implementation)
     #[cfg(feature = "full")]
@@ -561,6 +566,21 @@ where
         format!("marlin-{}", E::CURVE)
     }
     #[cfg(feature = "full")]
+    fn combine_comms(terms: &[(Self::F, &Comm<Self>)]) -> Option<Comm<Self>> {
+        use ark_ec::{AffineRepr, CurveGroup};
+        use std::ops::Mul;
+        let mut c = E::G1::default();
+        let mut sh: Option<E::G1> = None;
+        for (k, cm) in terms {
+            c += cm.comm.0.mul(*k);
+            if let Some(s) = &cm.shifted_comm {
+                let cur = s.0.mul(*k);
+                sh = Some(sh.map_or(cur, |x| x + cur));
+            }
+        }
+        Some(ark_poly_commit::marlin_pc::Commitment { comm: ark_poly_commit::kzg10::Commitment(c.into_affine()), shifted_comm: sh.map(|x| ark_poly_commit::kzg10::Commitment(x.into_affine())) })
+    }
+    #[cfg(feature = "full")]
     fn comm_variants(c: &Comm<Self>, seed: u64) -> Vec<(String, Comm<Self>)> {
         crate::surgery::marlin_comm_variants::<E>(c, seed)
     }
@@ -624,6 +644,16 @@ where
         format!("sonic-{}", E::CURVE)
     }
     #[cfg(feature = "full")]
+    fn combine_comms(terms: &[(Self::F, &Comm<Self>)]) -> Option<Comm<Self>> {
+        use ark_ec::CurveGroup;
+        use std::ops::Mul;
+        let mut c = E::G1::default();
+        for (k, cm) in terms {
+            c += cm.0.mul(*k);
+        }
+        Some(ark_poly_commit::kzg10::Commitment(c.into_affine()))
+    }
+    #[cfg(feature = "full")]
     fn comm_variants(c: &Comm<Self>, seed: u64) -> Vec<(String, Comm<Self>)> {
         crate::surgery::sonic_comm_variants::<E>(c, seed)
     }
@@ -674,6 +704,21 @@ where
         format!("ipa-{}", G::CURVE)
     }
     #[cfg(feature = "full")]
+    fn combine_comms(terms: &[(Self::F, &Comm<Self>)]) -> Option<Comm<Self>> {
+        use ark_ec::CurveGroup;
+        use std::ops::Mul;
+        let mut c = G::Group::default();
+        let mut sh: Option<G::Group> = None;
+        for (k, cm) in terms {
+            c += cm.comm.mul(*k);
+            if let Some(s) = &cm.shifted_comm {
+                let cur = s.mul(*k);
+                sh = Some(sh.map_or(cur, |x| x + cur));
+            }
+        }
+        Some(ark_poly_commit::ipa_pc::Commitment { comm: c.into_affine(), shifted_comm: sh.map(|x| x.into_affine()) })
+    }
+    #[cfg(feature = "full")]
     fn comm_variants(c: &Comm<Self>, seed: u64) -> Vec<(String, Comm<Self>)> {
         crate::surgery::ipa_comm_variants::<G>(c, seed)
     }
@@ -719,6 +764,21 @@ where
     const FAMILY: Family = Family::Pst13;
     fn name() -> String {
         format!("pst13-{}", E::CURVE)
+    }
+    #[cfg(feature = "full")]
+    fn combine_comms(terms: &[(Self::F, &Comm<Self>)]) -> Option<Comm<Self>> {
+        use ark_ec::{AffineRepr, CurveGroup};
+        use std::ops::Mul;
+        let mut c = E::G1::default();
+        let mut sh: Option<E::G1> = None;
+        for (k, cm) in terms {
+            c += cm.comm.0.mul(*k);
+            if let Some(s) = &cm.shifted_comm {
+                let cur = s.0.mul(*k);
+                sh = Some(sh.map_or(cur, |x| x + cur));
+            }
+        }
+        Some(ark_poly_commit::marlin_pc::Commitment { comm: ark_poly_commit::kzg10::Commitment(c.into_affine()), shifted_comm: sh.map(|x| ark_poly_commit::kzg10::Commitment(x.into_affine())) })
     }
     #[cfg(feature = "full")]
     fn comm_variants(c: &Comm<Self>, seed: u64) -> Vec<(String, Comm<Self>)> {
